@@ -57,6 +57,7 @@ structure Stats where
   flagged : Nat := 0         -- conformant recorded traces on which the monitor reports a violation of this property
   nonconf : Nat := 0         -- recorded traces whose environment part is not conformant (judged only up to that point)
   panics : Nat := 0
+  cross : Nat := 0           -- recorded traces containing a cross-sink call (EnvX.lean)
 
 def specProps : List String := ["C07", "C08", "C09", "C10", "C11", "C12", "C15"]
 
@@ -96,6 +97,7 @@ def judgeLine (prop : String) (line : String) (st : Stats) : IO Stats := do
       let m := monRun inst.M.shape evs
       if !m.envOk || !m.shapeOk then st := { st with nonconf := st.nonconf + 1 }
       if m.panicked then st := { st with panics := st.panics + 1 }
+      if m.cross > 0 then st := { st with cross := st.cross + 1 }
       let p := propNum prop
       let vs := m.g.viols.filter (fun v => v.prop == p)
       -- the functional specification of the operator (Spec.lean), on conformant traces in its domain
@@ -104,7 +106,7 @@ def judgeLine (prop : String) (line : String) (st : Stats) : IO Stats := do
           let evs2 := rtoks.filterMap (parseEv (α := Int) (β := inst.β) String.toInt? inst.pb)
           let tr := evs2.reverse
           if evs2.length == rtoks.length && pullableTr tr then !(demandOk tr) else false
-        else if specProps.contains prop && m.envOk && m.shapeOk && !m.panicked then
+        else if specProps.contains prop && m.envOk && m.shapeOk && !m.panicked && m.cross == 0 then   -- specifications are stated (and proved) for `legalIn` histories
           match inst.spec with
           | some f =>
             let evs2 := rtoks.filterMap (parseEv (α := Int) (β := inst.β) String.toInt? inst.pb)
@@ -158,7 +160,7 @@ def main (args : List String) : IO UInt32 := do
     return 0
   | ["judge", prop] =>
     let st ← judgeLoop prop (← IO.getStdin) {}
-    IO.println s!"SUMMARY \{\"scripts\": {st.scripts}, \"nested\": {st.nested}, \"max_depth\": {st.maxDepth}, \"events\": {st.events}, \"mismatches\": {st.mismatches}, \"model_drift\": {st.fullMismatches}, \"flagged\": {st.flagged}, \"nonconformant\": {st.nonconf}, \"panics\": {st.panics}}"
+    IO.println s!"SUMMARY \{\"scripts\": {st.scripts}, \"nested\": {st.nested}, \"max_depth\": {st.maxDepth}, \"events\": {st.events}, \"mismatches\": {st.mismatches}, \"model_drift\": {st.fullMismatches}, \"flagged\": {st.flagged}, \"nonconformant\": {st.nonconf}, \"panics\": {st.panics}, \"cross_sink\": {st.cross}}"
     return 0
   | ["par"] => parLoop (← IO.getStdin); return 0
   | ["pipe"] =>
